@@ -638,7 +638,7 @@ def check_path(spec, inst, st, res, rng, tr, seeds, angle_pins, g):
             if ob.twin is not None and (res.twins < 4 or st.tier == "thorough" or hash(key) % 5 == 0):
                 qt = Query(enc, ob.name + " twin", pchyps + ob.hyps, ob.twin)
                 smt2, names2 = qt.smt()
-                rt, mt, dtt = run_z3(smt2, names2, rlimit=st.rlimit, seed=1, timeout_ms=st.z3_timeout_ms)
+                rt, mt, dtt = run_z3(smt2, names2, rlimit=st.rlimit, seed=1, timeout_ms=inst.get("twin_timeout_ms", st.z3_timeout_ms))
                 res.queries += 1
                 res.solver_time += dtt
                 res.twins += 1
